@@ -65,17 +65,16 @@ struct spai0 {
 
 #pragma omp parallel for
         for(ptrdiff_t i = 0; i < static_cast<ptrdiff_t>(n); ++i) {
-            value_type  num = math::zero<value_type>();
-            scalar_type den = math::zero<scalar_type>();
+            value_type num = math::zero<value_type>();
+            value_type den = math::zero<value_type>();
 
             for(auto a = backend::row_begin(A, i); a; ++a) {
                 value_type v = a.value();
-                scalar_type norm_v = math::norm(v);
-                den += norm_v * norm_v;
-                if (a.col() == i) num += v;
+                den += v * math::adjoint(v);
+                if (a.col() == i) num += math::adjoint(v);
             }
 
-            (*m)[i] = math::inverse(den) * num;
+            (*m)[i] = num * math::inverse(den);
         }
 
         M = Backend::copy_vector(m, backend_prm);
